@@ -123,30 +123,102 @@ Proof.
     destruct cuts as [| c rest]; cbn [slices assemble] in *; rewrite Hc; reflexivity.
 Qed.
 
+(* ---- after 03019cb: whatever the arrival order, a buffer fed with honest fragments of ONE message
+   only ever holds a prefix of it; it completes to exactly that message or not at all ---- *)
+Fixpoint chain (b : body T) (pos : Z) (cs : list (chunk T)) (n : Z) : Prop :=
+  match cs with
+  | [] => pos = n
+  | CSlice b' lo (Some hi) :: rest => b' = b /\ lo = pos /\ pos < hi /\ chain b hi rest n
+  | _ => False
+  end.
+
+(* a legal fragment of the message with body b and length total (any cut points) *)
+Definition hfrag (b : body T) (total : Z) (f : frag T) : Prop :=
+  f_total f = total /\ f_total f <> f_len f /\ 0 <= f_off f /\ 0 < f_len f /\ f_off f + f_len f <= total /\
+  f_data f = CSlice b (f_off f) (if f_off f + f_len f =? total then None else Some (f_off f + f_len f)).
+
+Lemma chain_snoc b : forall cs pos n hi, chain b pos cs n -> n < hi -> chain b pos (cs ++ [CSlice b n (Some hi)]) hi.
+Proof.
+  induction cs as [| k rest IH]; intros pos n hi Hc Hlt; cbn in *.
+  - subst. auto.
+  - destruct k as [| b' lo [h |]]; try contradiction. destruct Hc as (-> & -> & Hp & Hr). repeat split; auto.
+Qed.
+
+Lemma chain_contiguous b : b <> BGarbled -> forall cs pos n, chain b pos cs n ->
+  contiguous C b pos (cs ++ [CSlice b n None]) = true.
+Proof.
+  intros Hg. induction cs as [| k rest IH]; intros pos n Hc; cbn in *.
+  - subst. rewrite (body_is_refl b Hg), Z.eqb_refl. reflexivity.
+  - destruct k as [| b' lo [h |]]; try contradiction. destruct Hc as (-> & -> & Hp & Hr).
+    rewrite (body_is_refl b Hg), Z.eqb_refl. apply Z.ltb_lt in Hp. rewrite Hp. cbn. apply IH, Hr.
+Qed.
+
+Lemma assemble_chain b : b <> BGarbled -> forall cs n, chain b 0 cs n -> assemble C (cs ++ [CSlice b n None]) = b.
+Proof.
+  intros Hg cs n Hc. pose proof (chain_contiguous b Hg cs 0 n Hc) as Hk.
+  destruct cs as [| k rest]; cbn [app assemble] in *; [rewrite Hk; reflexivity |].
+  destruct k as [| b' lo [h |]]; cbn in Hc; try contradiction. destruct Hc as (-> & _). rewrite Hk. reflexivity.
+Qed.
+
+Theorem reassemble_honest (b : body T) (total : Z) (c : ctx T) (f : frag T) c' ob :
+  b <> BGarbled -> hfrag b total f ->
+  (inc_seq c = f_seq f -> chain b 0 (inc c) (inc_len c)) ->
+  reassemble C c f = (c', ob) ->
+  (ob = None /\ inc_seq c' = f_seq f /\ chain b 0 (inc c') (inc_len c')) \/
+  (ob = Some b /\ inc c' = [] /\ inc_len c' = 0).
+Proof.
+  intros Hg (Ht & Hne & Ho & Hl & Hle & Hd) Hinv H. unfold reassemble in H.
+  destruct (f_total f =? f_len f) eqn:E; [apply Z.eqb_eq in E; contradiction |].
+  set (c1 := if negb (inc_seq c =? f_seq f) || (f_off f =? 0)
+             then RecordSet.set inc_seq (fun _ => f_seq f) (RecordSet.set inc_len (fun _ => 0) (RecordSet.set inc (fun _ => []) c)) else c) in *.
+  assert (H1 : inc_seq c1 = f_seq f /\ chain b 0 (inc c1) (inc_len c1)).
+  { subst c1. destruct (negb (inc_seq c =? f_seq f) || (f_off f =? 0)) eqn:Er; cbn.
+    - split; reflexivity.
+    - apply orb_false_elim in Er. destruct Er as (Er & _). apply negb_false_iff, Z.eqb_eq in Er. auto. }
+  destruct H1 as (Hs1 & Hc1).
+  destruct (negb (f_off f =? inc_len c1) || (f_total f <? f_off f + f_len f)) eqn:Ed.
+  - injection H as <- <-. left. auto.
+  - apply orb_false_elim in Ed. destruct Ed as (Ed & _). apply negb_false_iff, Z.eqb_eq in Ed.
+    cbn in H. rewrite Hd in H.
+    destruct (f_off f + f_len f =? total) eqn:Ee.
+    + apply Z.eqb_eq in Ee. assert (Hge : (inc_len c1 + f_len f <? f_total f) = false) by (apply Z.ltb_ge; lia).
+      rewrite Hge in H. injection H as <- <-. right. cbn. rewrite Ed. rewrite (assemble_chain b Hg _ _ Hc1). auto.
+    + apply Z.eqb_neq in Ee. assert (Hlt : (inc_len c1 + f_len f <? f_total f) = true) by (apply Z.ltb_lt; lia).
+      rewrite Hlt in H. injection H as <- <-. left. cbn. repeat split; auto.
+      rewrite <- Ed. apply chain_snoc; [rewrite Ed; exact Hc1 | lia].
+Qed.
+
 End Reassembly.
 
-(* F20 (open): the fragment buffer appends in arrival order; three fragments of the Certificate in
-   the order 0,2,1 (legal per RFC 6347) assemble to garbage, the client fails and -- Failed being
-   absorbing -- no retransmission can repair it; the server is left Handshaking *)
+(* F20 (fixed 03019cb): three fragments of the Certificate in ANY order, with or without duplicates, never
+   poison the handshake: the client is never Failed; it either completes the message or waits, and one
+   retransmission of the flight (here unfragmented) lets it go on to send its own flight *)
 Definition frag_events (order : list (Z * option Z * Z)) : list gevent :=
   [GDeliver Server [DRef 0 0 []]; GDeliver Client [DRef 0 0 []]] ++
   map (fun '(lo, hi, len) => GDeliver Client [DRef 0 1 [XSlice lo hi 360 len]]) order ++
   [GDeliver Client [DRef 0 2 []]; GDeliver Client [DRef 0 3 []]].
+Definition reflight : list gevent :=
+  [GDeliver Client [DRef 0 0 []]; GDeliver Client [DRef 0 1 []]; GDeliver Client [DRef 0 2 []]; GDeliver Client [DRef 0 3 []]].
 
-Lemma fragments_in_order_fine :
-  let p := grun (pair_start 1 0) (frag_events [(0, Some 100, 100); (100, Some 200, 100); (200, None, 160)]) in
+Definition fA : Z * option Z * Z := (0, Some 100, 100).
+Definition fB : Z * option Z * Z := (100, Some 200, 100).
+Definition fC : Z * option Z * Z := (200, None, 160).
+Definition frag_orders : list (list (Z * option Z * Z)) :=
+  [[fA; fB; fC]; [fA; fC; fB]; [fB; fA; fC]; [fB; fC; fA]; [fC; fA; fB]; [fC; fB; fA];
+   [fA; fB; fB; fC]; [fA; fA; fB; fC]; [fA; fB; fC; fC]; [fA; fB; fA; fC]; [fB; fB; fC; fC]; [fA; fC; fC; fB; fA]].
+
+Definition frag_ok (order : list (Z * option Z * Z)) : bool :=
+  let p1 := grun (pair_start 1 0) (frag_events order) in
+  let p2 := grun p1 reflight in
+  negb (state_code (p_c p1) =? 3) && (last_fail (p_c p2) =? 0) && (state_code (p_c p2) =? 1) &&
+  Nat.eqb (length (sent (p_cout p2))) 4.
+
+Lemma fragments_any_order_heal : forallb frag_ok frag_orders = true.
+Proof. vm_compute. reflexivity. Qed.
+
+Lemma fragments_in_order_complete :
+  let p := grun (pair_start 1 0) (frag_events [fA; fB; fC]) in
   (state_code (p_c p), last_fail (p_c p), length (sent (p_cout p))) = (1, 0, 4%nat).
-Proof. vm_compute. reflexivity. Qed.
-
-Lemma fragments_out_of_order_fail :
-  let p := grun (pair_start 1 0) (frag_events [(0, Some 100, 100); (200, None, 160); (100, Some 200, 100)]) in
-  (state_code (p_c p), state_code (p_s p), alive (p_c p)) = (3, 1, false).
-Proof. vm_compute. reflexivity. Qed.
-
-Lemma fragment_duplicate_fail :
-  let p := grun (pair_start 1 0)
-             (frag_events [(0, Some 100, 100); (100, Some 200, 100); (100, Some 200, 100); (200, None, 160)]) in
-  (state_code (p_c p), state_code (p_s p)) = (3, 1).
 Proof. vm_compute. reflexivity. Qed.
 
 (* the premises of the agreement theorems hold in the instance *)
